@@ -85,12 +85,17 @@ CLAIMS = {'C01': {'note': 'Not decided (SQL): the upsert input=input+excluded.in
                  'of the emitted postings minus the funds still in flight on the stack, every successful step keeps all stack fundings and posting amounts non-negative and non-nil, appends postings '
                  'only in OP_SEND and then exactly one per part of the popped funding (source = part account, destination = popped account, same asset, same amount, in order), and changes each '
                  'tracked non-world balance by exactly the change of R (exact conservation: nothing is created or lost between balances, in-flight funds and postings) for every opcode except OP_SAVE '
-                 'and a metadata/print/asset opcode applied to a funding. Component contracts underneath, all proved for all inputs (unbounded integers, any number of parts): Funding.Take returns '
-                 'exactly the requested amount or an insufficient-funds error iff amount < 0 or > total; Take/TakeMax/Concat/Reverse conserve per-account sums; '
-                 'credit/repay/withdrawAll/withdrawAlways change exactly the balances they name.'},
+                 'and a metadata/print/asset opcode applied to a funding. Exact value clauses per opcode (round 7): OP_TAKE leaves a funding whose total is exactly the requested amount and succeeds '
+                 'only if 0 <= amount <= total of the source funding; OP_TAKE_MAX leaves a funding of min(amount, total) and reports max(0, amount - total) as missing; OP_ALLOC pushes one monetary '
+                 'per portion, topmost first, each the floor share plus one unit for the first (amount - sum of floors) portions; OP_SAVE lowers the tracked balance by exactly the saved amount ([A '
+                 'n]) or to min(balance, 0) ([A *]) and nothing else; OP_IADD / ISUB / MONETARY_NEW / MONETARY_ADD / MONETARY_SUB / FUNDING_SUM compute exactly the sum, difference, pair or total '
+                 'they name. Component contracts underneath, all proved for all inputs (unbounded integers, any number of parts): Funding.Take returns exactly the requested amount or an '
+                 'insufficient-funds error iff amount < 0 or > total; Take/TakeMax/Concat/Reverse conserve per-account sums; credit/repay/withdrawAll/withdrawAlways change exactly the balances they '
+                 'name.'},
  'C23': {'note': 'Trusted: the operand conditions listed under C22 (stack discipline of compiler output), that the compiler emits OP_TAKE_ALWAYS only for @world and sources declared unbounded (read '
-                 "off VisitSource, not proved), the induction over Execute's loop (argued in DESIGN Appendix B, not mechanised: Execute starts a goroutine and defers a close). ResolveBalances "
-                 'establishing T = R = initial is not under contract.',
+                 "off VisitSource, not proved), the induction over Execute's loop (argued in DESIGN Appendix B, not mechanised: Execute starts a goroutine and defers a close). ResolveBalances is "
+                 'under contract for panic-freedom and the shape of Machine.Balances it leaves (non-nil nested maps, non-nil amounts, given a store that returns non-nil amounts), not for T = initial '
+                 '(the store is an interface).',
          'ref': 'DESIGN.md §4 C23',
          'text': "VM level, for every bytecode program: with T the machine's tracked balance and R = initial + credits - debits - in-flight funds (the real balance if everything in flight were "
                  "sent), Machine.tick is proved to satisfy, for every tracked (account, asset) and every opcode: (1) T' - T <= R' - R, hence T <= R is inductive (the machine's view is never "
@@ -104,14 +109,17 @@ CLAIMS = {'C01': {'note': 'Not decided (SQL): the upsert input=input+excluded.in
                  'to the amount, each equal to the floor share plus one unit for the earliest L parts where L is the leftover (0 <= L < number of parts). Loop invariants incl. the nonlinear floor '
                  'sandwich are discharged by SMT. NewAllotment is verified (it was assumed): the result has positive denominators and non-negative numerators, sums to at most 1, to exactly 1 when a '
                  '`remaining` portion is present, two `remaining` are refused, and every specific portion is copied unchanged.'},
- 'C27': {'note': "NOT covered: Machine.ResolveResources / ResolveBalances / Execute's loop and the ANTLR-generated compiler (arbitrary bytes -> program); the typed-stack operand conditions of tick "
-                 "are trusted about compiler output; OP_PRINT's channel send is dropped; regular expressions are uninterpreted predicates; regexp.FindStringSubmatch group counts are assumed.",
+ 'C27': {'note': "NOT covered: Execute's loop and the ANTLR-generated compiler (arbitrary bytes -> program); the typed-stack operand conditions of tick are trusted about compiler output; OP_PRINT's "
+                 'channel send is dropped; regular expressions are uninterpreted predicates; regexp.FindStringSubmatch group counts are assumed.',
          'ref': 'DESIGN.md §4 C27',
          'text': 'Panic-freedom, for all inputs, of the functions that turn client strings into machine values and of the script builder: NewValueFromString (all six types; the JSON null number, '
                  'finding F5, fixed), ParsePortionSpecific / NewPortionSpecific, ParseMonetary, ValidateAccountAddress / ValidateAsset, TxToScriptData (its three panics are proved unreachable by a '
                  'loop invariant over the variable maps). Postconditions state what a successfully parsed value satisfies (non-nil, valid address/asset, amount >= 0). Machine.tick: for every opcode '
                  'and every machine state satisfying the operand conditions, no nil dereference, no out-of-range index, no failed type assertion, no reachable panic (OP_SAVE default case), no '
-                 'nil-map write; the program counter strictly increases on every successful step (so Execute terminates within len(Instructions) steps).'},
+                 'nil-map write; the program counter strictly increases on every successful step (so Execute terminates within len(Instructions) steps). Machine.ResolveResources and '
+                 'Machine.ResolveBalances (round 7): for every program whose resources are typed as the compiler declares them (declAccount / declAsset / balanceSlotsOK / NeededBalances typing, '
+                 'listed as requires) and every store answer, no nil dereference, failed type assertion, out-of-range index or nil-map write; ResolveBalances leaves Balances well-formed (wfBal), '
+                 "which is tick's precondition."},
  'C28': {'note': 'Assumed: stored transactions returned by Store.RevertTransaction are well formed; accounts.Pattern / assets.Pattern are uninterpreted predicates. Not covered: direct SQL writes, '
                  'migrations.',
          'ref': 'DESIGN.md §4 C28',
@@ -166,15 +174,19 @@ CLAIMS = {'C01': {'note': 'Not decided (SQL): the upsert input=input+excluded.in
                  'path: vm.numberToInteger returns the decimal rendering of the integer part of the exact rational the JSON number denotes (big.Rat, no float), and ScriptV1.ToCore renders a '
                  'json.Number amount through it and an integral json.Number variable as its exact decimal; MonetaryInt Add/Sub/Neg/comparisons and Allotment.Allocate are exact. The original '
                  'float64/int() path lost precision above 2^53 and overflowed above 2^63 (finding F7, repaired: ScriptV1 decodes with json.Number).'},
- 'C38': {'note': "Not covered: the chi router and status-code mapping of every route, HydrateLog's reflection, DefaultController.Import's outer loop (reads through an interface chain that is "
-                 "opaque). 'Ledger unchanged' is C07.",
+ 'C38': {'note': "Not covered: the chi router and status-code mapping of every route, HydrateLog's reflection (F24 found by a sub-agent, fixed, demonstration only), the go-libs query.Builder walk "
+                 "that connects validateFilters to ResolveFilter (the ResolveFilter requires state what it guarantees), DefaultController.Import's outer loop (reads through an interface chain that "
+                 "is opaque). 'Ledger unchanged' is C07.",
          'ref': 'DESIGN.md §4 C38',
          'text': 'Panic-freedom of request-decoding paths, for all inputs: v1 Script.ToCore (F6 fixed), ScriptV1.ToCore, TransactionRequest.ToCore, Postings.Validate, TxToScriptData, '
                  'Bulker.processElement, LogType / SavedMetadata / DeletedMetadata UnmarshalJSON (F9, F10 fixed) and importLog (F11 fixed: nil ids, unchecked type assertions on imported logs, which '
                  'run in a goroutine outside the recover middleware). Also: the bulk script-stream parser ParseTextStream (runs in its own goroutine; two panics found and fixed, F19), the filter '
                  'value validators TypeString/TypeBoolean.ValidateValue (a validated value has the type the storage handlers assert), the accounts and transactions ResolveFilter handlers (no failing '
-                 'type assertion or index on validated filters), accounts.ValidateAddress / assets.IsValid.'}}
-
+                 'type assertion or index on validated filters), accounts.ValidateAddress / assets.IsValid. Filter operators (round 7): common.ConvertOperatorToSQL panics on anything but the six '
+                 'comparison operators, so it `requires` one; the logs / schemas / accounts / volumes / transactions / ledgers ResolveFilter handlers are verified to establish it from the operator '
+                 'lists of the entity schemas (queries.Type*.Operators, under contract), stated over the key validateFilters looks up (the name before the first [). Two defects found and fixed this '
+                 'way (F22: $in / $exists reaching the panic; F23: metadata[balance[x]] resolved as a balance filter). Date filters: TypeDate.ValidateValue accepts exactly strings that parse, and '
+                 'NormalizeDateFilterValue then returns no (unwrapped, 500) error.'}}
 NA = {'C04': 'Effective volumes are computed by the PL/pgSQL triggers set_effective_volumes / update_effective_volumes; no Go function computes them, so no contract on the Go code can state or decide the '
         'property.',
  'C05': 'Point-in-time / window reads are SQL text (first_value ... over, date predicates); a contract can say which string was built, not what Postgres returns for it.',
